@@ -212,8 +212,38 @@ func init() {
 		sp := c.Func("mcp", "streamableServerConn", "servePOST")
 		emit("batchGateRejects", "streamableServerConn.servePOST, the batch gate", "(isBatch : Bool) (pv : List Nat)",
 			findIfCond(c, sp, func(s string) bool { return strings.HasPrefix(s, "isBatch") }))
-		emit("perRequestMetaApplies", "streamableServerConn.servePOST, when the SEP-2575 mirror is checked", "(pv mv : List Nat)",
+		// every variable of servePOST that is in scope at that point and that the translator knows is a parameter (the
+		// readBatch flag too): a condition that starts to consult one of them still translates, and the theorems about
+		// the gate (meta_gate_ignores_batch …) are what re-opens
+		w("set_option linter.unusedVariables false in\n")
+		emit("perRequestMetaApplies", "streamableServerConn.servePOST, when the SEP-2575 mirror is checked", "(isBatch : Bool) (pv mv : List Nat)",
 			findIfCond(c, sp, func(s string) bool { return strings.Contains(s, "metaVersion != \"\"") && strings.Contains(s, "||") }))
+		// where servePOST consults the readBatch flag (structural fact): the batch gate and the single-message header mirror
+		if sp != nil {
+			var uses []string
+			ast.Inspect(sp.Body, func(n ast.Node) bool {
+				switch x := n.(type) {
+				case *ast.IfStmt:
+					if x.Cond != nil && preflightMentions(x.Cond, "isBatch") {
+						uses = append(uses, "if "+c.Src(x.Cond))
+					}
+				case *ast.AssignStmt:
+					for _, r := range x.Rhs {
+						if preflightMentions(r, "isBatch") {
+							uses = append(uses, c.Src(x))
+						}
+					}
+				case *ast.CallExpr:
+					for _, a := range x.Args {
+						if id, ok := a.(*ast.Ident); ok && id.Name == "isBatch" {
+							uses = append(uses, "arg of "+c.Src(x.Fun))
+						}
+					}
+				}
+				return true
+			})
+			c.Fact("preflight.servePOST_isBatch_uses", uses)
+		}
 		emit("methodNotFoundAs404", "streamableServerConn.servePOST, version part of the 404 arm", "(pv : List Nat)",
 			firstConjunct(findIfCond(c, sp, func(s string) bool { return strings.Contains(s, "ErrNotHandled") })))
 		tr.vars = map[string]string{"protocolVersion": "pv"}
@@ -419,6 +449,18 @@ func condOfIfContaining(c *Ctx, fd *ast.FuncDecl, text string) string {
 		return true
 	})
 	return out
+}
+
+// preflightMentions reports whether the expression contains the identifier name.
+func preflightMentions(e ast.Node, name string) bool {
+	found := false
+	ast.Inspect(e, func(n ast.Node) bool {
+		if id, ok := n.(*ast.Ident); ok && id.Name == name {
+			found = true
+		}
+		return !found
+	})
+	return found
 }
 
 func firstConjunct(e ast.Expr) ast.Expr {
